@@ -1,5 +1,6 @@
 import XmppModel.Prelude.Hex
 import XmppModel.Model.Close
+import XmppModel.Model.CloseEnv
 /-! Driver for C10 (see harness/c10 for the line protocol).
 
     hist <serve 0|1> <op,op,…>        -> <res,res,…> <wire items> <outClosed><inClosed> <serve result>
@@ -8,6 +9,9 @@ import XmppModel.Model.Close
                                           -> tx=<ok|failed> setters=<calls> read=<kept|moved> inforce=<close|…> serve=<…>
     whist <failing write index|-> <op,…>  -> <res,…> <wire items> <outClosed> <closing-tag write attempts>
     sched <kind,kind,…> <i,i,…>       -> <wire events> <per goroutine outcome>
+    tee <k|-> <op,…>                      -> <res,…> <connection writes> <outClosed> <closing-tag writes>   (TeeOut fails from op k on)
+    wdl <op,…>                            -> <res,…> <wire items> <outClosed> wd=<z|p> setters=clean        (tNa/tNx/tNk: context fate)
+    held <pre|handler> <dp|dz|d>          -> serve=deadline held=ok fresh=closedin bits=11                  (reader held across Serve's end)
 
 ops: c close; t1…t6 the transmit entry points; r read; m/y peer stanza (handler silent /
 handler replies); h/s handler returns a plain error / a stream error; e peer stream error;
@@ -78,8 +82,52 @@ def showEv : Lts.Ev → String
 def showPc : Lts.Pc → String
   | .done true => "ok" | .done false => "fail" | _ => "run"
 
+def parseTeeOp (s : String) : Option Tee.Op :=
+  match s with
+  | "c" => some .close
+  | "p" => some .peerClose
+  | "t1" | "t2" | "t3" | "t4" | "t5" | "t6" => some .tx
+  | _ => none
+
+def showTeeRes : Tee.Res → String
+  | .ok => "ok" | .closedOut => "closedout" | .ioErr => "ioerr" | .na => "na"
+
+def showTeeItem : Tee.Item → String
+  | .el => "el" | .close => "close"
+
+def parseWdOp (s : String) : Option WdHist.Op :=
+  match s with
+  | "c" => some .close
+  | "t1a" | "t2a" | "t3a" | "t4a" | "t6a" => some (.tx .alive)
+  | "t1x" | "t2x" | "t3x" | "t4x" | "t6x" => some (.tx .over)
+  | "t1k" | "t2k" | "t3k" | "t4k" | "t6k" => some (.tx .cancelled)
+  | _ => none
+
+def showWdRes : WdHist.Res → String
+  | .ok => "ok" | .closedOut => "closedout" | .failed => "failed"
+
 def handle (args : List String) : Option String :=
   match args with
+  | ["tee", k, ops] => do
+    let f ← if k == "-" then some none else k.toNat?.map some
+    let l ← mapM? parseTeeOp (splitList ops)
+    let fails : Nat → Bool := fun i => match f with | none => false | some n => decide (n ≤ i)
+    let r := Tee.run false fails 0 Tee.init l
+    pure s!"{joinList (r.2.map showTeeRes)} {joinList (r.1.wire.map showTeeItem)} {showBool r.1.outClosed} {r.1.attempts}"
+  | ["wdl", ops] => do
+    let l ← mapM? parseWdOp (splitList ops)
+    let r := WdHist.run true WdHist.init l
+    let wd := if r.1.wdPast then "p" else "z"
+    pure s!"{joinList (r.2.map showWdRes)} {joinList (r.1.wire.map showItem)} {showBool r.1.outClosed} wd={wd} setters=clean"
+  | ["held", _acq, _end] =>
+    -- the reader is taken, Serve's shutdown is tried (and waits), the reader is given back, the
+    -- shutdown completes, then a read through the old handle and through a new reader
+    let s1 := RdLts.run true true RdLts.init [.hAcquire, .sStep, .hRelease, .sStep, .sStep, .sStep, .hRead]
+    let s2 := RdLts.run true true s1 [.hAcquire, .hRead]
+    let held := if s1.bad || s1.tokens != 0 then "token" else "ok"
+    let fresh := if s2.tokens == s1.tokens then "closedin" else "token"
+    let h := (Hist.run (Hist.init true) [.setDeadline .past]).1
+    pure s!"serve={showRet h.serve} held={held} fresh={fresh} bits={showBool h.outClosed}{showBool (h.inClosed && s2.bit)}"
   | ["hist", serve, ops] => do
     let sv ← parseBool serve
     let l ← mapM? parseOp (splitList ops)
